@@ -262,8 +262,9 @@ STATIC = [
 
 # ---- C17 units reused (added after seeded change C11-4 was missed): "f once per index" rests on contiguous_index_queue handing out
 # ---- every chunk index at most once under concurrent pops from both ends; these are the C17 units of the same name, run here too
-_c17 = {"__name__": "c17_reuse"}
-exec(compile(open("/verif/specs/C17/spec.py").read(), "/verif/specs/C17/spec.py", "exec"), _c17)
+_c17 = {"UNITS": [], "VX_NO_REUSE": True, "__name__": "c17_reuse"}
+if not globals().get("VX_NO_REUSE"):     # reuse is never transitive: the other spec is loaded without ITS reuse blocks (no cycles)
+    exec(compile(open("/verif/specs/C17/spec.py").read(), "/verif/specs/C17/spec.py", "exec"), _c17)
 for _u in _c17["UNITS"]:
     if _u.name.startswith("ciq.") and not _u.name.endswith(".i32"):
         _u.name = "c17." + _u.name
